@@ -236,6 +236,25 @@ def enumerate_cases(tier):
     for g in N2:
         gates += [{"op": g, "p": [], "w": [0, 1]}, {"op": g, "p": [], "w": [1, 0]}]
     gates += [{"op": "adjoint", "base": {"op": "ISWAP", "p": [], "w": [1, 0]}}]
+    # GHZ on three of four wires + one |1> + one |+i>: all entropic quantities and probabilities over subsets / wire orders
+    import itertools
+    ghz = [{"op": "Hadamard", "p": [], "w": [0]}, {"op": "CNOT", "p": [], "w": [0, 1]}, {"op": "CNOT", "p": [], "w": [1, 2]}, {"op": "PauliX", "p": [], "w": [3]},
+           {"op": "Hadamard", "p": [], "w": [4]}, {"op": "S", "p": [], "w": [4]}]
+    ent_meas = []
+    for a in ([0], [1, 2], [0, 3], [4]):
+        for b in ([1], [2], [3, 4], [0, 2]):
+            if not set(a) & set(b):
+                ent_meas.append({"mp": "mutual_info", "w0": a, "w1": b, "log_base": 2})
+    for k in (1, 2, 3):
+        for sub in itertools.combinations(range(5), k):
+            ent_meas.append({"mp": "vn_entropy", "w": list(sub), "log_base": 2})
+            ent_meas.append({"mp": "purity", "w": list(sub)})
+    for chunk in range(0, len(ent_meas), 8):
+        yield {"kind": "analytic", "ops": ghz, "meas": ent_meas[chunk:chunk + 8], "wires": [0, 1, 2, 3, 4], "dev_wires": None, "tableau": True, "check": True}
+    for perm in itertools.permutations([0, 3, 4]):
+        for tb in (True, False):
+            yield {"kind": "analytic", "ops": ghz, "meas": [{"mp": "probs", "w": list(perm)}, {"mp": "probs", "w": [perm[0], 1, perm[1]]}], "wires": [0, 1, 2, 3, 4],
+                   "dev_wires": [0, 1, 2, 3, 4], "tableau": tb, "check": True}
     for g in gates:
         yield {"kind": "analytic", "ops": prep + [g], "meas": meas + singles + [{"mp": "state"}], "wires": [0, 1], "dev_wires": None, "tableau": True, "check": True}
         yield {"kind": "analytic", "ops": prep + [g], "meas": [{"mp": "state"}, {"mp": "density_matrix", "w": [1, 0]}, {"mp": "probs", "w": [1, 0]}],
